@@ -138,7 +138,7 @@ EXPORT errno_t _strncpy_s_chk(char *restrict dest, rsize_t dmax,
         BND_CHK_PTR_BOUNDS(src, slen);
     } else if (unlikely(slen > srcbos)) {
         return handle_str_bos_overflow("strncpy_s: slen exceeds src",
-                                       dest, destbos);
+                                       dest, dmax);
     }
 
     /* hold base in case src was not copied */
